@@ -487,6 +487,43 @@ def TEp.send (s : TEp) (ready : Bool) (x : Nat × Nat) : TEp :=
 
 def TEp.run (s : TEp) (evs : List (Bool × (Nat × Nat))) : TEp := evs.foldl (fun acc e => acc.send e.1 e.2) s
 
+/-! ### what an exit lets through (exit_socket.py `DataChecker`, `TunnelExitSocket.is_allowed`), applied to outgoing AND to
+    returned datagrams; the size bounds are the documented minimum sizes of the protocols (BEP 29 header 20 bytes, BEP 15
+    shortest response 8 bytes = action + transaction id, a bencoded dictionary at least "de") -/
+
+def be32At (d : Bytes) (o : Nat) : Option Nat :=
+  if o + 4 ≤ d.length then some (((d.drop o).take 4).foldl (fun a b => a * 256 + b.toNat) 0) else none
+
+def actionAt (d : Bytes) (o : Nat) : Bool :=
+  match be32At d o with
+  | some v => decide (v ≤ 3)
+  | none => false
+
+def couldBeTracker (d : Bytes) : Bool :=
+  (decide (8 ≤ d.length) && actionAt d 0) || (decide (12 ≤ d.length) && actionAt d 8)
+
+def couldBeUtp (d : Bytes) : Bool :=
+  match d with
+  | b0 :: b1 :: _ => decide (20 ≤ d.length) && decide (b0.toNat / 16 ≤ 4) && decide (b0.toNat % 16 = 1) && decide (b1.toNat ≤ 3)
+  | _ => false
+
+def couldBeDht (d : Bytes) : Bool :=
+  decide (1 < d.length) && (d.head? == some 100) && (d.getLast? == some 101)
+
+def couldBeBt (d : Bytes) : Bool := couldBeUtp d || couldBeTracker d || couldBeDht d
+
+/-- `is_allowed`: `bt` / `ipv8` = the exit's PEER_FLAG_EXIT_BT / PEER_FLAG_EXIT_IPV8, `pfx` = the tunnel community's prefix -/
+def exitAllows (bt ipv8 : Bool) (pfx d : Bytes) : Bool :=
+  (couldBeBt d && bt) || (couldBeIpv8 d && ipv8) || (couldBeIpv8 d && d.take 22 == pfx)
+
+/-! ### several exit sockets on one node: each has its own queue, transports and pending resolutions -/
+
+abbrev XMulti := List (Nat × XSock)
+
+/-- an event for the exit socket of circuit `cid` -/
+def XMulti.step (dns : Nat → Nat) (ms : XMulti) (cid : Nat) (ev : XEv) : XMulti :=
+  ms.map (fun (p : Nat × XSock) => if p.1 == cid then (p.1, p.2.step dns ev) else p)
+
 end
 
 /-! ### the toy AEAD: 1 nonce byte, key byte, direction byte, 1 checksum byte, 20 zero bytes, then the message in clear.
